@@ -202,6 +202,28 @@ def run(ctx) -> list[Inst]:
                 same_loop = cfg.owner(a).loop is cfg.owner(b).loop and cfg.owner(a).loop is not None
                 ok = swapped and labels and same_loop
                 why = f'swapped={swapped} distinct labels={labels} same loop body={same_loop}'
+            indirect = False
+            if not ok and len(three) == 1:
+                # ONE construction fed from intermediate records (a comprehension / loop over a local list that was
+                # filled earlier): whether both directions are recorded is decided where the records are made
+                rc0 = three[0]
+                pm_ = {}
+                for x_ in ast.walk(f.node):
+                    for ch_ in ast.iter_child_nodes(x_):
+                        pm_[id(ch_)] = x_
+                cur_ = pm_.get(id(rc0))
+                while cur_ is not None and not isinstance(cur_, (ast.For, ast.ListComp, ast.GeneratorExp)):
+                    cur_ = pm_.get(id(cur_))
+                it_ = cur_.iter if isinstance(cur_, ast.For) else (cur_.generators[0].iter if cur_ is not None else None)
+                if isinstance(it_, ast.Name) and any(
+                        isinstance(c_, ast.Call) and isinstance(c_.func, ast.Attribute) and c_.func.attr in ('append', 'extend')
+                        and isinstance(c_.func.value, ast.Name) and c_.func.value.id == it_.id for c_ in own_nodes(f.node)):
+                    indirect = True
+            if indirect:
+                insts.append(Inst(RULE, fname, construct, 'unproven',
+                                  msg='relationships are built from intermediate records collected earlier (not followed)',
+                                  file=rel, line=three[0].lineno, props=PROPS))
+                continue
             insts.append(Inst(RULE, fname, construct, 'ok' if ok else 'violation',
                               msg='' if ok else f'the two directions of a link are not both sent ({why})',
                               file=rel, line=f.node.lineno, props=PROPS))
